@@ -91,6 +91,14 @@ def fam_threads(w: World) -> None:
     per = 1 + ch.draw(3, 'threads.per')
     cfg = S.draw_config(ch, 3, middlewares=True, handlers=True, force_async=False)
     corpora = [_corpus(ch, f'th{i}x', per) for i in range(n_threads)]
+    if ch.flag(1, 2, 'threads.first_use_race'):
+        # every thread starts with a call to a method that has a validator with per-method arguments: whatever the
+        # library sets up lazily at the first use of a method is set up by several threads at once
+        name = ch.choice(['typed', 'typed', 'typed_default', 'vecho'], 'threads.first_use_method')
+        for i, texts in enumerate(corpora):
+            # half of the threads send arguments the method's own schema refuses (but a foreign or missing schema accepts)
+            params = [f'th{i}first', 'x' if i % 2 else 1] if name == 'typed' else [f'th{i}first']
+            texts.insert(0, json.dumps({'jsonrpc': '2.0', 'method': name, 'params': params, 'id': i}))
     w.scenario = {'cfg': cfg, 'threads': n_threads, 'per_thread': per, 'first': corpora[0][:1]}
     w.nontrivial = True
     expected = []
@@ -98,7 +106,7 @@ def fam_threads(w: World) -> None:
         fresh = S.ServerUnderTest(w, cfg, node=f'fresh{i}')
         expected.append([_reply_view(fresh.deliver(t)) for t in texts])
     shared = S.ServerUnderTest(w, cfg, node='shared')
-    sched = BatonScheduler(w, switch_den=ch.choice([4, 8, 16, 2], 'threads.den'),
+    sched = BatonScheduler(w, switch_den=ch.choice([4, 8, 16, 2, 3], 'threads.den'),
                            extra_files=[os.path.abspath(SVC.__file__), os.path.abspath(S.__file__)])
 
     def worker(texts: List[str]) -> Any:
@@ -473,7 +481,7 @@ def fam_growth(w: World) -> None:
 FAMILIES = {'history': fam_history, 'threads': fam_threads, 'tasks': fam_tasks, 'leak': fam_leak, 'cancel': fam_cancel,
             'growth': fam_growth}
 PLAN = {
-    'quick': {'history': 2100, 'threads': 1700, 'tasks': 3500, 'leak': 2800, 'cancel': 4000, 'growth': 320},
+    'quick': {'history': 2100, 'threads': 6000, 'tasks': 3500, 'leak': 2800, 'cancel': 4000, 'growth': 320},
     'thorough': {'history': 10000, 'threads': 10000, 'tasks': 20000, 'leak': 10000, 'cancel': 20000, 'growth': 1600},
 }
 CHUNK = 25
